@@ -280,7 +280,7 @@ def run_payload_text(S_, n, stats, findings):
         if m is not None: findings.append({'level': 'text:payload', 'lang': 'Lp', 'n': n, 'kind': 'payload_value', 'msg': 'a printed payload parses to a different value (%s)' % res[0], 'where': 'from_syntax', 'codepoints': string_text(m, cs)})
     stats['fenc'] |= set(ex.inlined); stats['lmod'] |= ex.modelled; stats['solver_s'] += ex.t_solver; stats['branches'] += ex.n_branches
 
-MULTI_SEEDS = ['?a == (u ?b)', '?a == (app ?b ?c), ?b == (u ?a)', '?a==(lam $x ?b),?b==(var $x)']
+MULTI_SEEDS = ['?a == (u ?b)', '?a == (var $x)', '?a == (app ?b ?c), ?b == (u ?a)', '?a==(lam $x ?b),?b==(var $x)']
 MULTI_SPLICED = ['?a == (app ?b (var $x))', '?a == (app (var $x) ?b)', '?a == (u ?b[?c := ?d])', '?a == (lam $x (var $x))']     # not multi-patterns: a child that is not a variable
 def run_text_seeded(S_, lang, seed, max_dev, stats, findings):
     """MultiPattern::parse on every string that differs from a valid multi-pattern text in at most max_dev scalar values"""
@@ -353,7 +353,7 @@ def run(tier, seed=0):
     for n in range(0, NTXT + 1): plan.append(('text:multi', 'Lb', n))
     for n in range(0, NTXT + 1): plan.append(('text:recexpr', 'Lb', n))
     for n in range(1, NTXT + 1): plan.append(('text:payload', 'Lp', n))
-    for sd in (MULTI_SEEDS[:1] if tier == 'quick' else MULTI_SEEDS): plan.append(('seeded-multi', 'Lb', sd))
+    for sd in (MULTI_SEEDS[:2] if tier == 'quick' else MULTI_SEEDS): plan.append(('seeded-multi', 'Lb', sd))
     for sd in MULTI_SPLICED: plan.append(('spliced-multi', 'Lb', sd))
     for kind, lang, n in plan:
         before = stats['paths']; nf = len(findings); t1 = time.time()
